@@ -446,7 +446,11 @@ where
 pub fn start_senders(w: &Rc<World>, plan: &Rc<Plan>, sink: v5::MqttSink) {
     if plan.senders.iter().flatten().any(|o| matches!(o, AppOp::PubQ1Nb { .. })) {
         let w = w.clone();
+        let q = if plan.cfg.cb_queries { Some(sink.clone()) } else { None };
         sink.publish_ack_cb(move |a, disc| {
+            if let Some(s) = &q {
+                w.cb_query(s.is_open(), s.is_ready(), s.credit());
+            }
             w.ack_cb(a.packet_id.get(), a.reason_code as u8, crate::common::user_props_sig(&a.properties, a.reason_string.as_ref()), disc);
         });
     }
